@@ -442,6 +442,49 @@ def _tables_ordered_case(case, tier, seed):
     return res
 
 
+def _nodes_ground_case(case, tier, seed):
+    """ground (concrete, exhaustive over the rows of the shipped tables; not a solver claim): at every tabulated energy
+    the tabulated f1, f2 are returned (f1 NaN exactly where the table says -9999); scalar and vector calls"""
+    import glob
+    import periodictable as pt
+    from periodictable import core
+    res = dict(paths=1, claims=0, discharged=0, queries=0, distinct=0, violations=[], inconclusive=[], samples=[], solver_s=0.0, complete=True)
+    files = sorted(glob.glob(os.path.join(core.get_data_path('xsf'), '*.nff')))
+    nrows = 0
+    for fpath in files:
+        sym_ = os.path.basename(fpath)[:-4].capitalize()
+        try:
+            el = pt.elements.symbol(sym_)
+        except ValueError:
+            continue
+        rows = read_nff(sym_.lower())
+        en = np.array([r[0] for r in rows])
+        f1v, f2v = el.xray.scattering_factors(energy=en)
+        bad = []
+        for i, (e, f1, f2) in enumerate(rows):
+            # a repeated or out-of-order energy (absorption edge rows, and the Si finding) has no single tabulated value
+            if (i > 0 and rows[i - 1][0] >= e) or (i + 1 < len(rows) and rows[i + 1][0] <= e):
+                continue
+            nrows += 1
+            ok1 = (f1v[i] != f1v[i]) if f1 is None else abs(f1v[i] - f1) <= 1e-9 * max(1.0, abs(f1))
+            ok2 = abs(f2v[i] - f2) <= 1e-9 * max(1e-30, abs(f2))
+            if i in (0, len(rows) // 2, len(rows) - 1) or not (ok1 and ok2):
+                s1, s2 = el.xray.scattering_factors(energy=e)
+                ok1 = ok1 and ((s1 != s1) if f1 is None else abs(float(s1) - f1) <= 1e-9 * max(1.0, abs(f1)))
+                ok2 = ok2 and abs(float(s2) - f2) <= 1e-9 * max(1e-30, abs(f2))
+            if not (ok1 and ok2):
+                bad.append((e, float(f1v[i]), f1, float(f2v[i]), f2))
+        res['claims'] += 1
+        if not bad:
+            res['discharged'] += 1
+        elif len(res['violations']) < 5:
+            res['violations'].append(dict(case=case.name, claim='tabulated_values_at_nodes[%s]' % sym_, values={'energy_keV': bad[0][0]},
+                                          observed=[repr(bad[0][1::2]), repr(bad[0][2::2])], how='concrete, %d nodes differ' % len(bad)))
+    res['queries'] = res['distinct'] = res['claims']
+    res['samples'] = [dict(tables=len(files), nodes_checked=nrows)]
+    return res
+
+
 def _wrap(fn):
     def h(E):
         try:
@@ -466,7 +509,8 @@ def cases(tier):
     if th:
         for s in ('Si', 'Fe'):
             out.append(Case('factors[%s|whole table]' % s, _factors_case(s, 'all'), max_paths=8192, timeout_ms=20000, nsamples=3, budget_s=1700))
-    for keys, dk, ak in [(('X', 'Y'), 'density', 'energy'), (('Xi', 'D', 'Y'), 'natural_density', 'wavelength')] + \
+    for keys, dk, ak in [(('X', 'Y'), 'density', 'energy'), (('Xi', 'D', 'Y'), 'natural_density', 'wavelength'),
+                         (('Xq', 'Xq3', 'X', 'Yq'), 'density', 'energy')] + \
             ([(('X',), 'density', 'wavelength'), (('Xq', 'Yq', 'H'), 'natural_density', 'energy')] if th else []):
         out.append(Case('sld[%s|%s|%s]' % ('+'.join(keys), dk, ak), _wrap(_sld_case(keys, dk, ak)), max_paths=64, timeout_ms=30000, portfolio=th, validate=False))
     out.append(Case('sld_vector[X+Y]', _wrap(_vector_case(('X', 'Y'))), max_paths=64, timeout_ms=30000, validate=False))
@@ -479,5 +523,6 @@ def cases(tier):
         out.append(Case('reflectivity[angles=%d|wavelengths=%d|rough=%s]' % (na, nw, rg), _reflectivity_case(na, nw, rg), max_paths=256,
                         timeout_ms=60000, portfolio=True, budget_s=400 if not th else 1500, nsamples=2))
     out.append(Case('nff_tables_ordered', None, custom=_tables_ordered_case))
+    out.append(Case('nff_table_nodes_ground', None, custom=_nodes_ground_case))
     out.append(Case('f0_symbol_resolution_crosshair', None, custom=_f0_crosshair, budget_s=500 if th else 200))
     return out
